@@ -272,7 +272,26 @@ func (n *Node) read(timeout time.Duration) (Resp, error) {
 		}
 		return r.r, nil
 	case <-time.After(timeout):
-		return Resp{}, fmt.Errorf("node response timeout after %v", timeout)
+		// ask the Go runtime of the node for its goroutine stacks (SIGQUIT) so that a wedged request can be diagnosed
+		dump := ""
+		if n.cmd != nil && n.cmd.Process != nil {
+			before := len(n.Stderr.String())
+			n.cmd.Process.Signal(syscall.SIGQUIT)
+			time.Sleep(2 * time.Second)
+			all := n.Stderr.String()
+			if len(all) > before {
+				dump = all[before:]
+			}
+			if dir := os.Getenv("VERIF_DIR"); dir != "" && dump != "" {
+				f := filepath.Join(dir, "bin", fmt.Sprintf("node-timeout-%d.log", time.Now().UnixNano()))
+				os.WriteFile(f, []byte(dump), 0644)
+				dump = " (goroutine dump in " + f + ")"
+			} else {
+				dump = ""
+			}
+		}
+		n.dead = true
+		return Resp{}, fmt.Errorf("node response timeout after %v%s", timeout, dump)
 	}
 }
 
